@@ -34,7 +34,7 @@ def transform_history(rnd, label):
 
 def run(ctx):
     rnd = random.Random(ctx.seed + 1010)
-    n = 360 if ctx.quick else 7000
+    n = 360 if ctx.quick else 2500
     scens = [transform_history(rnd, "t%d" % i) for i in range(n)]
     gl.run_grid(ctx, [("transform", scens)], 64 | gl.OBS_NODAL | gl.OBS_EXACT, "C10")
     ctx.assume("the documented map per rule family (affine on [-1,1] and [0,1], shift/rate for Gauss-Laguerre, shift/scale for Gauss-Hermite) and the documented quadrature scale are tabulated in the observer; a canonical twin (same grid without the transform) is compared point by point: mapped points, pulled-back evaluate, chain rule of differentiate, scaled weights / basis integrals / supports, getDomainInside on grid points and just beyond the bounds")
